@@ -15,6 +15,7 @@ Answers
   altseq: ok <sequence|.>
   lift  : ok E | ok <strand> <k> (<s> <e>)*k <extracted sequence|.>      (coordinates of the returned location)
   inc*  : ok <strand> <k> chromosome blocks | <k'> chunk-relative blocks | <spliced sequence>  [| cds …]
+          (for a CDS the sequence is that of its location, untrimmed: frames are C05's subject)
 """
 from harness import shims
 
@@ -121,7 +122,7 @@ def impl_var_op(line):
             frames = CDSInterval.construct_frames_from_location(c.chunk_relative_location, f0)
             c = CDSInterval(es, ee, st, frames, parent_or_seq_chunk_parent=parent)
             g = c.incorporate_variants(variants)
-            return "ok " + show_interval(g, g.extract_sequence) + " | " + " ".join(str(f.value) for f in g.frames)
+            return "ok " + show_interval(g, g.chunk_relative_location.extract_sequence)
         if op == "incT":
             cs_, ce_ = parse_blocks(tk)
             f0 = CDSFrame.from_int(tk.int())
@@ -134,7 +135,7 @@ def impl_var_op(line):
             g = t.incorporate_variants(variants)
             out = "ok " + show_interval(g, g.get_spliced_sequence)
             if g.cds:
-                out += " | cds " + show_interval(g.cds, g.cds.extract_sequence)
+                out += " | cds " + show_interval(g.cds, g.cds.chunk_relative_location.extract_sequence)
             else:
                 out += " | cds none"
             return out
